@@ -479,9 +479,6 @@ def generate(repo: str):
     e = ensure_cte_facts(mx_tree, mx_src)
     lz = lazy_facts(tb_tree, tb_src)
     bases = mro_fact(dk_tree)
-    if u["target_is_phys"] != d["target_is_phys"] or u["has_where"] != d["has_where"]:
-        # the record has one flag for both statements: take the conjunction (a false one fails cfg_ok)
-        pass
     builders = [py2v.find_method(mx_tree, "_BaseTableMixins", "_ensure_where_condition"),
                 py2v.find_method(mx_tree, "UpdateSupportMixin", "update"),
                 py2v.find_method(mx_tree, "UpdateSupportMixin", "_ensure_and_normalize_update_set"),
@@ -500,8 +497,10 @@ def generate(repo: str):
          f"  {b(s['set_requalifies'])}  (* set_requalifies *)",
          f"  {b(s['set_unqualified_raises'])}  (* set_unqualified_raises *)",
          f"  {b(s['set_strips_alias'])}  (* set_strips_alias *)",
-         f"  {b(u['target_is_phys'] and d['target_is_phys'])}  (* target_is_phys *)",
-         f"  {b(u['has_where'] and d['has_where'])}  (* stmt_has_where *)",
+         f"  {b(u['target_is_phys'])}  (* target_is_phys_update *)",
+         f"  {b(d['target_is_phys'])}  (* target_is_phys_delete *)",
+         f"  {b(u['has_where'])}  (* update_has_where *)",
+         f"  {b(d['has_where'])}  (* delete_has_where *)",
          f"  {b(u['decorated'])}  (* ensure_cte_update *)",
          f"  {b(d['decorated'])}  (* ensure_cte_delete *)",
          f"  {build_calls}  (* build_session_calls *)",
